@@ -49,4 +49,29 @@ def replay_iwa(job):
     return search_iwa(job)
 
 
+def search_container(job):
+    """fault injection on the template container: structural zip records bit by bit, plus a sample of the member faults"""
+    import os, sys, warnings
+    sys.path.insert(0, os.path.dirname(os.path.dirname(os.path.abspath(__file__))))
+    from bounded import c17_faults as F
+    warnings.simplefilter("ignore")
+    cases = [{"base": "template", "kind": "zipstruct", "region": "eocd", "entry": 0},
+             {"base": "template", "kind": "zipstruct", "region": "cd", "entry": 0, "stored": True},
+             {"base": "template", "kind": "zipstruct", "region": "local", "entry": 0},
+             {"base": "template", "kind": "truncate", "frac": 0.5}, {"base": "template", "kind": "not-zip"}, {"base": "template", "kind": "no-iwa"}]
+    for case in cases:
+        r = F.run_case(case)
+        if r and not r.get("ok"):
+            return {"violated": True, "detail": r["detail"], "job": {"custom": "replay_container", "case": case}}
+    return {"violated": False}
+
+
+def replay_container(job):
+    import os, sys
+    sys.path.insert(0, os.path.dirname(os.path.dirname(os.path.abspath(__file__))))
+    from bounded import c17_faults as F
+    r = F.run_case(job["case"])
+    return {"violated": bool(r and not r.get("ok")), "detail": (r or {}).get("detail", "")}
+
+
 NATIVE = {}
